@@ -6,5 +6,7 @@ if ! git diff --quiet; then echo "/repo has uncommitted changes"; exit 2; fi
 git apply "$diff" || { echo "patch does not apply"; exit 2; }
 cd /verif && ./check "$pid" --tier "$tier" > /tmp/mutcheck-$pid.out 2>&1; rc=$?
 git -C /repo checkout -- . ; git -C /repo clean -fdq
+# the generated model files follow the tree again
+[ -x /verif/.work/bin/gotrans ] && /verif/.work/bin/gotrans -repo /repo -out /verif/coq/gen >/dev/null 2>&1
 grep -E "^(VIOLATION|KNOWN|C[0-9]+ tier|  \[)" /tmp/mutcheck-$pid.out | cut -c1-260
 echo "exit=$rc"
